@@ -270,6 +270,11 @@ class DateTime:
         except (OSError, OverflowError) as err:
             # A timestamp that the platform can not represent.
             raise LiquidValueError(str(err), token=None) from err
+        except KeyError as err:
+            # Babel looks up the letters of a format pattern. An unknown one.
+            raise LiquidValueError(
+                f"unknown datetime format field {err}", token=None
+            ) from err
 
     def _resolve_timezone(
         self,
